@@ -1387,7 +1387,8 @@ def _run(ck, rng, thorough, facts, root):
     cases.append(("min_a2", dict(copy.deepcopy(MIN_A), rs_under_pipeline=True, launch=("explicit", "L-min-a2")), False))
     # a DECLARED run space without blocks (`run_space: {blocks: []}`, `run_space: {max_runs: 25}`): a launch of one run with an
     # empty run context -- bracketed, linked and inspected like any other launch
-    for bi, written in enumerate(({"combine": False, "max_runs": False, "dry_run": False, "blocks": True}, {"combine": False, "max_runs": True, "dry_run": False, "blocks": False})):
+    for bi, written in enumerate(({"combine": False, "max_runs": False, "dry_run": False, "blocks": True}, {"combine": False, "max_runs": True, "dry_run": False, "blocks": False},
+                                 {"combine": False, "max_runs": False, "dry_run": False, "blocks": False})):      # the last one is `run_space: {}`
         c = {"nodes": [{"k": "src", "cfg": {"value": 2}}, {"k": "mul", "cfg": {"factor": 3}},
                        {"k": "template", "segs": [["lit", "out_"], ["hole", "extra"], ["lit", ".txt"]], "out": "path"}, {"k": "sink"}],
              "spec": {"combine": CB, "max_runs": 25 if written["max_runs"] else 1000, "blocks": [], "written": written},
